@@ -30,7 +30,7 @@ theorem inputD_shape (ciph : Cipher) (now : U32) (l : Listener SessG) (dead : Bo
     cases hc : isCreate (listenerInput (world now) ciph l d a).dec with
     | true => exact Or.inr ⟨(h.1 hc).1, (h.1 hc).2.1⟩
     | false => exact Or.inl (h.2 hc)
-  unfold inputD
+  rw [inputD_eq]
   cases dead with
   | false => exact live
   | true =>
